@@ -13,9 +13,10 @@ rm -f tests/zz_demo_seed.rs
 suite=$(cargo test --offline --workspace 2>&1 | grep -E "^test result|FAILED|^error" | awk '/FAILED|error/{f=1} /test result: ok/{p+=$4} END{print (f?"FAIL":"ok"), p}')
 cp $OUT/demo_test.rs tests/zz_demo_seed.rs
 with=$(cargo test --offline --test zz_demo_seed 2>&1 | grep -E "^test result" | head -1)
-git stash -q -- src
+# (git stash is shared between worktrees of one repository: reverse-apply the patch instead)
+git apply -R $OUT/patch.diff
 without=$(cargo test --offline --test zz_demo_seed 2>&1 | grep -E "^test result" | head -1)
-git stash pop -q
+git apply $OUT/patch.diff
 rm -f tests/zz_demo_seed.rs
 echo "suite_with_patch: $suite"
 echo "demo_with_patch: $with"
